@@ -90,7 +90,7 @@ def _hm(key, cookie):
 def _run(mask, order, ck, clen, pathi, prov, fault_step, fault_kind):
     """ck: 0 no COOKIEFILE field, 1 unreadable, 2 readable with clen bytes
     prov: 0 None, 1 'pw', 2 '', 3 Deferred->'pw', 4 coroutine->'pw', 5 raises
-    fault_step: 0 none, 1 PROTOCOLINFO, 2 AUTHCHALLENGE, 3 AUTHENTICATE, 4 a bootstrap query
+    fault_step: 0 none, 1 PROTOCOLINFO, 2 AUTHCHALLENGE, 3 AUTHENTICATE, 4 GETINFO version, 5 USEFEATURE, 6 GETINFO events/names
     fault_kind: 0 5xx, 1 disconnect, 2 (AUTHCHALLENGE only) wrong hash, 3 odd-length hex, 4 missing SERVERNONCE,
     5..8 a 0/1/16/31-byte prefix of the right hash"""
     prelude.reset_module_state()
@@ -194,9 +194,13 @@ def _run(mask, order, ck, clen, pathi, prov, fault_step, fault_kind):
                 key = ln.split(' ')[1]
                 if key == 'version' and fault(4):
                     continue
+                if key == 'events/names' and fault(6):
+                    continue
                 val = {'signal/names': 'RELOAD NEWNYM', 'version': '0.4.8.9', 'events/names': 'CIRC STREAM'}[key]
                 say('250-%s=%s' % (key, val), '250 OK')
             else:
+                if word == 'USEFEATURE' and fault(5):
+                    continue
                 say('250 OK')
 
     try:
@@ -276,12 +280,16 @@ def _run(mask, order, ck, clen, pathi, prov, fault_step, fault_kind):
         pass
     if boot.fired > 1:
         return R('ready-notification-fired-twice')
-    everything_ok = bool(st['auth_cmds']) and st['authed'] and not st['dead'] and fault_step != 4
+    everything_ok = bool(st['auth_cmds']) and st['authed'] and not st['dead'] and fault_step not in (4, 5, 6)
     if everything_ok:
         if boot.ok != 1:
             return R('ready-notification-not-success-after-full-bootstrap', 'ok=%d err=%d %r', boot.ok, boot.err, boot.exc())
         if 'USEFEATURE EXTENDED_EVENTS' not in st['lines']:
             return R('success-before-bootstrap-finished')
+    if boot.ok and fault_step in (4, 5, 6):
+        return R('ready-notification-succeeded-although-a-bootstrap-query-failed', 'fault step %d', fault_step)
+    if everything_ok:
+        pass
     else:
         if boot.ok:
             return R('ready-notification-succeeded-although-setup-failed')
@@ -306,7 +314,7 @@ def c04_auth(order: int, ck: int, clen: int, pathi: int, prov: int, fstep: int, 
     prov = api.pick(prov, 0, 5)
     if not (mask & 2):
         assume(prov <= 1)
-    fstep = api.pick(fstep, 0, 4)
+    fstep = api.pick(fstep, 0, 6)
     fkind = api.pick(fkind, 0, 8)
     if fstep == 0:
         assume(fkind == 0)
